@@ -71,6 +71,10 @@ type env struct {
 	accepted, rejectedLimit  float64
 	failedLater, exemptSends float64
 	keeperSeam               float64
+	reconfCases              float64
+	limReconfSends           float64
+	listSends                float64
+	xs                       []*world.Actor // exemption-list actors with spread first address bytes
 }
 
 func must(err error) {
@@ -123,6 +127,9 @@ func run(r *report.Run, shard, nshards int, replayFile string) {
 	e.deadline = r.Deadline(240*time.Second, 27*time.Minute)
 
 	r.Rule = "tax: full product amount x rate string x {non-exempt, exempt} x funding {a+tax-1, a+tax, a+tax+5}; each case = signed MsgSendToRemote on a fork, then (fork 1) MsgCancelSendToRemote, (fork 2) batch built by skyway.EndBlocker at h%50==0 + 3 MsgBatchSendToRemoteClaim + tally; a case is distinct by (amount, rate, exempt, funding, outcome). " +
+		"reconfig: every ordered pair (S1,S2) of tax settings rate {unset,0,1/3,1/2,1} x exempt {none,sender,other} (S2 never unset), written through {proposal handler, keeper setter} alternately: send by U1 under S1, S2 stored, send by U2 under S2, then {cancel, batch + attested execution, batch + timeout + cancel of both}. " +
+		"exempt-lists: all 15 ordered lists of 1..3 of three addresses with first bytes high/low/middle x store path {proposal handler, Keeper.SetBridgeTax/SetBridgeTransferLimit, skyway ExportGenesis -> JSON -> InitGenesis}; every address and an unlisted one sends (taxed token, limited token above and within the limit). " +
+		"limit-reconfig: settings (limit {500,1000} x {DAILY,WEEKLY} x U1 exempt?, NONE) S1, send@h0, S2, send x 6 heights, send; " +
 		"limit: per scenario (coverage.limit_scenarios: period, limit, kinds, D) every sequence (no merging of states) of <= D signed sends, each step = kind {limited U1/U2, exempt EX, POOR = limited without funds, UNM = unmapped denom, FREE = token without limit}(amount) x height in {h0,h0+1,h0+W-1,h0+W,h0+W+1,h0+2W}, heights non-decreasing; a case is distinct by (period, limit, kind, amount, height index, reference window state, outcome)"
 	r.Assumptions = []string{
 		"'any one limit window' is read as the code's tumbling window: a window opens at the first ACCEPTED non-exempt transfer after the previous window lapsed (height - start >= BlockLimit(period)) and lasts BlockLimit blocks; a sliding-window reading is NOT checked (sequences in which more than the limit is accepted within fewer than BlockLimit blocks across a window boundary are counted in coverage.sliding_window_exceeding_sequences, informational)",
@@ -131,6 +138,9 @@ func run(r *report.Run, shard, nshards int, replayFile string) {
 		"'no state change' = digest of the complete skyway and bank stores (the ante handler's sequence increment in the auth store is outside the property)",
 		"heights are jumped with world.At: the send handler reads only ctx.BlockHeight(); block time is irrelevant to it",
 		"tax and limit are configured through keeper.NewSkywayProposalHandler (the function app.go registers on the gov v1beta1 router); the gov module's voting is not exercised",
+		"after a replacement of a token's transfer limit the stored usage record (window start, total) is kept: the next non-exempt send is judged against the NEW limit and the NEW period's length from the OLD window start (code's behaviour, the documented reading for limit changes); sends while the sender is exempt or the period is NONE are neither restricted nor counted",
+		"refunds and burns are owed in the amounts recorded when the transfer was accepted (amount + recorded tax), whatever the token's tax settings are at cancel / execution time",
+		"genesis path: the skyway module's ExportGenesis of the forked state is edited (bridge_taxes / bridge_transfer_limits), marshalled to JSON, unmarshalled, ValidateBasic'ed and imported by the module's InitGenesis into the same forked state (not a whole-application InitChain)",
 		"rejected-by-limit sends are additionally re-run directly on keeper.UpdateBridgeTransferUsageWithLimit without a transaction cache ('checked before persisting' is the property's named mechanism); this seam check is stricter than the transaction-level statement",
 	}
 
@@ -146,9 +156,21 @@ func run(r *report.Run, shard, nshards int, replayFile string) {
 	if part == "" || part == "tax" {
 		e.partTax()
 	}
+	if part == "" || part == "reconfig" {
+		e.partReconfig()
+	}
+	if part == "" || part == "lists" {
+		e.partExemptLists()
+	}
+	if part == "" || part == "limit-reconfig" {
+		e.partLimitReconfig()
+	}
 	if part == "" || part == "limit" {
 		e.partLimit()
 	}
+	r.Extra["reconfig_cases"] = e.reconfCases
+	r.Extra["limit_reconfig_sends"] = e.limReconfSends
+	r.Extra["exempt_list_sends"] = e.listSends
 	r.Extra["panics_recovered_no_state_change"] = e.panicsNoChange
 	r.Extra["representable_rejected_intermediate_overflow"] = e.interOverflow
 	r.Extra["sliding_window_exceeding_sequences"] = e.slidingExceed
@@ -537,6 +559,8 @@ type limCfg struct {
 	heights []int64
 	kinds   []step
 	depth   int
+	// exemptU1: the limited user U1 is on the exemption list (limit-reconfig part)
+	exemptU1 bool
 }
 
 type acc struct {
@@ -671,7 +695,8 @@ func (e *env) stepLimit(c *limCfg, ctx *sdk.Context, m *model, s step, dS, dB st
 	default:
 		panic("kind " + s.Kind)
 	}
-	limited := c.Period != "ABSENT" && c.period != skywaytypes.LimitPeriod_NONE && denom == e.limDenom && sender != e.ex
+	limited := c.Period != "ABSENT" && c.period != skywaytypes.LimitPeriod_NONE && denom == e.limDenom && sender != e.ex &&
+		!(c.exemptU1 && sender == e.u1)
 	// reference decision
 	cand := m
 	withinLimit := true
@@ -961,6 +986,36 @@ func (e *env) replay(file string) {
 				e.violate(f, v.Replay, 0)
 				return
 			}
+		}
+	case "reconfig":
+		var c reconfCase
+		must(json.Unmarshal(raw, &c))
+		outcome, f := e.runReconfig(c)
+		e.r.Case("replay|" + outcome)
+		e.r.Sample(map[string]interface{}{"case": c, "outcome": outcome})
+		if f != nil {
+			e.violate(f, c, 0)
+		}
+	case "exempt-lists":
+		var c listCase
+		must(json.Unmarshal(raw, &c))
+		e.r.Sample(map[string]interface{}{"case": c})
+		for _, f := range e.runList(c) {
+			e.violate(f, c, 0)
+		}
+	case "limit-reconfig":
+		var in struct {
+			Ops []seqOp `json:"ops"`
+		}
+		must(json.Unmarshal(raw, &in))
+		ctx := e.initLimitReconf()
+		m := &model{total: new(big.Int)}
+		for i, o := range in.Ops {
+			if f := e.doSeqOp(&ctx, m, o, in.Ops[:i+1]); f != nil {
+				e.violate(f, v.Replay, 0)
+				return
+			}
+			e.r.Sample(o.String())
 		}
 	default:
 		fmt.Fprintln(os.Stderr, "unknown replay part", head.Part)
